@@ -30,6 +30,24 @@ RULE_SEARCH = (
     "some edge or has turn pairs and the search returns >= 3 tree entries, a route of >= 2 edges, or no path; "
     "distinct by (world, query, configuration)")
 
+RULE_APP = (
+    "end to end through the application: a REAL CompassApp built offline from a generated TOML configuration whose [frontier] "
+    "section is road_class (class file; road_class_parser mapping), vehicle_restriction (restriction CSV in mixed units), "
+    "turn_restriction (CSV) or `combined` of them, every table written to a file by the harness; CompassApp::run on one JSON "
+    "query (origin_vertex/destination_vertex, `road_classes` as numbers or as mapped names, `vehicle_parameters`), dijkstra "
+    "or a* with the default weight factor over a consistent great-circle estimate (such a search never re-opens a vertex), "
+    "vertex-oriented plus a small edge-oriented family, route.path as edge ids / json, tree output. Families first on a "
+    "4-vertex network whose short way is forbidden by class (numbers / names / mixed / empty / absent / unknown name / out "
+    "of range / no mapping), by vehicle restriction (too high, too heavy per axle; a small vehicle passes; parameters or a "
+    "field missing), by a restricted turn, by combinations; every unit pair of vehicle quantity x restriction row with the "
+    "limit 1 % above / below; edge-oriented queries whose own edges are forbidden; then random networks (3-40 vertices) with "
+    "about a quarter of the edges refused and restricted turns among adjacent pairs. I = status, route.path, tree entries, "
+    "agreement with the same query on the core API. S = FrontierRun.check_outcome in Coq: the raw-table judge "
+    "(Model/FrontierSpec.v, exact rationals) on the response - no route or tree edge inadmissible by the FILES, no restricted "
+    "consecutive pair in a route. M = the class of the response by the builder/service model Frontier.build (a query the "
+    "services accept is answered, one they refuse gets an error). Non-trivial = the frontier refuses some edge or has turn "
+    "pairs and the response has a tree of >= 3 entries, a route of >= 2 edges or no path, or the query is refused")
+
 # REJECT reason of the S line -> known-finding class
 CLASSES = [
     ("REJECT(reverse-turn", "K_reverse_turn"),
@@ -91,7 +109,11 @@ def run(chk):
         "serde_json / csv decoding of well-formed files is as the model's decoders say (exercised, not proved)",
         "priority_queue crate: pop returns an entry of minimal priority (ties unspecified, such cases are compared by "
         "the checker only)",
-        "Rust harness harness/src/bin/c04.rs, harness/src/searchkit.rs and this driver"]
+        "Rust harness harness/src/bin/c04.rs, harness/src/searchkit.rs and this driver",
+        "stream app_frontier: harness/src/bin/e2e.rs (configuration / network / frontier table writers, extraction of path and "
+        "tree from the JSON response: the key vertex of a tree entry is taken as the far end of its edge), coq/Model/E2ERun.v "
+        "(calls FrontierRun.check_outcome and Frontier.build, nothing else); the application's a* is assumed not to re-open a "
+        "vertex (consistent estimate, factor <= 1: C02), so a restricted pair in a route is reported, never classified K_reopen"]
     chk.assumptions = [
         "restriction limits and vehicle quantities are finite numbers (JSON and the CSV round trip cannot carry NaN or infinities)",
         "a restricted turn (a, b) is a pair driven a then b (travel order); routes of a reverse search are read backwards",
@@ -107,7 +129,12 @@ def run(chk):
     if not tres.get("ok"):
         chk.violation("broken-correspondence", "translator", {"translator": "tr_units", "error": tres.get("msg")}, tres.get("msg"),
                       "model/unit/*_unit.rs have the shape the translator knows (fail closed)", found=False, key="translator")
-    chk.proofs(extra_targets=["Model/FrontierRun.vo"])
+    # coq/Model/E2ERun.v (stream app_frontier) also imports the traversal runner of C03, which reads the generated cost /
+    # turn tables: regenerate them too (a scratch checkout in VERIF_REPO mode starts without coq/Gen/*.v)
+    for name, res in vf.run_translators(which=["turn", "cost"]).items():
+        if not res.get("ok", False):
+            vf.log("translator %s: %s (owned by another check; its previous output is used)" % (name, res.get("msg")))
+    chk.proofs(extra_targets=["Model/FrontierRun.vo", "Model/E2ERun.vo"])
     binp = vf.build_harness("c04")
     thorough = chk.tier != "quick"
     replay_stream = None
@@ -115,6 +142,8 @@ def run(chk):
         try:
             rj = json.load(open(chk.replay))
             replay_stream = "search" if "world" in rj.get("case", {}) else "frontier"
+            if rj.get("stream") == "app_frontier" or rj.get("case", {}).get("stream") == "app_frontier":
+                replay_stream = "app_frontier"
         except Exception:  # noqa
             replay_stream = "frontier"
 
@@ -140,6 +169,14 @@ def run(chk):
         r.stats.setdefault("hist", {})["model_TIE_skipped"] = nt
         chk.add_stream(r, RULE_SEARCH)
         vf.compare(chk, r, classify=classify, binpath=binp)
+
+    if replay_stream in (None, "app_frontier"):
+        # end to end: the same raw-table judge on what CompassApp::run returns (harness/src/bin/e2e.rs)
+        binp_app = vf.build_harness("e2e")
+        r = vf.run_stream(binp_app, "app_frontier", 1300 if thorough else 150, chk.seed, os.path.join(chk.outdir, "app_frontier"),
+                          replay=chk.replay)
+        chk.add_stream(r, RULE_APP)
+        vf.compare(chk, r, classify=classify, binpath=binp_app)
 
     # one KNOWN-FINDING line per class: the first case met (the corpus witness) and the number of further cases
     per, order = {}, []
